@@ -31,8 +31,28 @@ import (
 var c09Families = []string{"corrupt", "cipher", "shape", "mutate"}
 var c09Corrupt = []string{"truncate-xml", "bitflip-xml", "truncate-b64", "bitflip-b64", "truncate-deflate", "bitflip-deflate", "delete-byte-xml", "insert-byte-xml"}
 var c09DataAlgIDs = []string{types.MethodAES128GCM, types.MethodAES192GCM, types.MethodAES256GCM, types.MethodAES128CBC, types.MethodAES256CBC, types.MethodTripleDESCBC, "urn:unknown", ""}
-var c09CipherKinds = []string{"length-sweep", "cbc-last-byte", "cbc-all-zero", "wrapped-key-length", "wrapped-key-size", "bad-base64", "missing-parts", "cbc-pad-then-zeros", "cbc-random-blocks"}
-var c09Cfgs = []string{"normal", "bare(empty-store,no-keys,nil-clock)", "failing-store", "skip-signature", "no-keys", "validate-enc-cert+garbage-cert", "limit=maxint64", "limit=negative", "validate-enc-cert+empty-cert"}
+var c09CipherKinds = []string{"length-sweep", "cbc-last-byte", "cbc-all-zero", "wrapped-key-length", "wrapped-key-size", "bad-base64", "missing-parts", "cbc-pad-then-zeros", "cbc-random-blocks", "algorithm-dictionary", "x509data-variants"}
+var c09Cfgs = []string{"normal", "bare(empty-store,no-keys,nil-clock)", "failing-store", "skip-signature", "no-keys", "validate-enc-cert+garbage-cert", "limit=maxint64", "limit=negative", "validate-enc-cert+empty-cert",
+	"tls-store-empty-chain", "validate-enc-cert+tls-store-empty-chain", "validate-enc-cert+tls-store-nil-chain", "tls-store-zero-value", "validate-enc-cert+tls-store-zero-value", "validate-enc-cert+tls-store-empty-leaf", "setter-key-without-certificate", "validate-enc-cert+setter-key-without-certificate"}
+
+// identifiers from the XML Encryption 1.0/1.1, XML Signature and RFC 6931 vocabularies (not only
+// the ones the library exports): a hostile sender may name any of them
+var c09DigestURIs = []string{
+	"http://www.w3.org/2000/09/xmldsig#sha1", "http://www.w3.org/2001/04/xmlenc#sha256", "http://www.w3.org/2001/04/xmlenc#sha512",
+	"http://www.w3.org/2001/04/xmldsig-more#sha224", "http://www.w3.org/2001/04/xmldsig-more#sha384", "http://www.w3.org/2001/04/xmlenc#ripemd160",
+	"http://www.w3.org/2001/04/xmldsig-more#md5", "http://www.w3.org/2007/05/xmldsig-more#sha3-224", "http://www.w3.org/2007/05/xmldsig-more#sha3-256",
+	"http://www.w3.org/2007/05/xmldsig-more#sha3-384", "http://www.w3.org/2007/05/xmldsig-more#sha3-512", "http://www.w3.org/2007/05/xmldsig-more#whirlpool",
+	"http://www.w3.org/2001/04/xmlenc#sha384", "http://www.w3.org/2000/09/xmldsig#md5", "urn:unknown-digest", "", " ", "sha256", "SHA1",
+}
+var c09KeyTransportURIs = []string{
+	types.MethodRSAOAEP, types.MethodRSAOAEP2, types.MethodRSAv1_5, "http://www.w3.org/2009/xmlenc11#rsa-oaep", "http://www.w3.org/2001/04/xmlenc#kw-aes128", "http://www.w3.org/2001/04/xmlenc#kw-aes256",
+	"http://www.w3.org/2001/04/xmlenc#kw-tripledes", "http://www.w3.org/2001/04/xmlenc#dh", "http://www.w3.org/2009/xmlenc11#ECDH-ES", "urn:unknown-transport", "",
+}
+var c09BlockURIs = []string{
+	types.MethodAES128GCM, types.MethodAES192GCM, types.MethodAES256GCM, types.MethodAES128CBC, types.MethodAES256CBC, types.MethodTripleDESCBC,
+	"http://www.w3.org/2001/04/xmlenc#aes192-cbc", "http://www.w3.org/2001/04/xmlenc#des-cbc", "http://www.w3.org/2009/xmlenc11#aes128-gcm ", "urn:unknown", "",
+}
+var c09MGFURIs = []string{"", "http://www.w3.org/2009/xmlenc11#mgf1sha1", "http://www.w3.org/2009/xmlenc11#mgf1sha256", "http://www.w3.org/2009/xmlenc11#mgf1sha512", "urn:unknown-mgf"}
 
 const c09Bases = 8
 
@@ -44,7 +64,7 @@ func init() {
 			"deep/wide/mixed documents; SP configurations normal / bare / failing store / skip / no keys; oracle: the call returns, pointer results obey exactly-one-of(result, error), no panic or fatal exit; distinct = shape hash (family, kind, base, offset bucket, config, outcome classes)",
 		Directed:   c09Directed,
 		Run:        c09Run,
-		MustHit:    []string{"family=corrupt", "family=cipher", "family=shape", "family=mutate", "truncate", "bitflip", "cipher=length-sweep", "cipher=cbc-last-byte", "cipher=cbc-all-zero", "cipher=wrapped-key-length", "cipher=cbc-pad-then-zeros", "cfg=bare(empty-store,no-keys,nil-clock)", "cfg=failing-store", "cfg=validate-enc-cert+garbage-cert", "cfg=limit=maxint64", "cfg=limit=negative", "via_unsigned_response", "deep_document"},
+		MustHit:    []string{"family=corrupt", "family=cipher", "family=shape", "family=mutate", "truncate", "bitflip", "cipher=length-sweep", "cipher=cbc-last-byte", "cipher=cbc-all-zero", "cipher=wrapped-key-length", "cipher=cbc-pad-then-zeros", "cfg=bare(empty-store,no-keys,nil-clock)", "cfg=failing-store", "cfg=validate-enc-cert+garbage-cert", "cfg=limit=maxint64", "cfg=limit=negative", "cfg=validate-enc-cert+tls-store-empty-chain", "cfg=tls-store-zero-value", "cfg=setter-key-without-certificate", "cipher=algorithm-dictionary", "cipher=x509data-variants", "via_unsigned_response", "deep_document"},
 		RandomRuns: map[string]int{"quick": 2500, "thorough": 150000},
 		Assumptions: []string{"stack exhaustion / fatal runtime errors are caught through the worker crash journal and reported as violations",
 			"for []byte results (DecryptBytes) an empty plaintext with nil error is a legitimate result; the exactly-one rule is applied to pointer results"},
@@ -108,6 +128,16 @@ func c09Directed(tier string) [][]uint64 {
 			out = append(out, []uint64{1, k, v % 8, v % 2, v, 0})
 		}
 	}
+	// algorithm identifiers from the standards vocabulary in every place, X509Data variants
+	for p := uint64(0); p < uint64(len(c09KeyTransportURIs)*len(c09DigestURIs)); p++ {
+		if tier == "quick" && p%uint64(len(c09KeyTransportURIs)) > 2 && p%7 != 0 {
+			continue
+		}
+		out = append(out, []uint64{1, 9, p % uint64(len(c09BlockURIs)), p % 2 * 4, p, p % 10})
+	}
+	for v := uint64(0); v < 10; v++ {
+		out = append(out, []uint64{1, 10, 0, v % 2 * 5 % 9, v, v % 2})
+	}
 	// structure-aware mutations of every base
 	for base := uint64(0); base < c09Bases; base++ {
 		for i := uint64(0); i < 60; i++ {
@@ -119,7 +149,7 @@ func c09Directed(tier string) [][]uint64 {
 	}
 	// degenerate configurations against hostile ciphertexts, corrupted and compressed messages
 	for cfg := uint64(5); cfg < uint64(len(c09Cfgs)); cfg++ {
-		for k := uint64(0); k < 9; k++ {
+		for k := uint64(0); k < uint64(len(c09CipherKinds)); k++ {
 			out = append(out, []uint64{1, k, k % 8, cfg, 3 + k*5, k})
 		}
 		for k := uint64(0); k < uint64(len(c09Corrupt)); k++ {
@@ -281,6 +311,19 @@ func c09Run(r *core.Run) {
 	case "validate-enc-cert+empty-cert":
 		s.Cfg.ValidateEncCert = true
 		s.Cfg.EncCertRaw = []byte{}
+	case "tls-store-empty-chain", "validate-enc-cert+tls-store-empty-chain":
+		s.Cfg.EncStyle, s.Cfg.EncTLSMode = world.KeyTLS, 1
+		s.Cfg.ValidateEncCert = strings.HasPrefix(cfgName, "validate")
+	case "validate-enc-cert+tls-store-nil-chain":
+		s.Cfg.EncStyle, s.Cfg.EncTLSMode, s.Cfg.ValidateEncCert = world.KeyTLS, 2, true
+	case "tls-store-zero-value", "validate-enc-cert+tls-store-zero-value":
+		s.Cfg.EncStyle, s.Cfg.EncTLSMode = world.KeyTLS, 3
+		s.Cfg.ValidateEncCert = strings.HasPrefix(cfgName, "validate")
+	case "validate-enc-cert+tls-store-empty-leaf":
+		s.Cfg.EncStyle, s.Cfg.EncTLSMode, s.Cfg.ValidateEncCert = world.KeyTLS, 4, true
+	case "setter-key-without-certificate", "validate-enc-cert+setter-key-without-certificate":
+		s.Cfg.EncStyle, s.Cfg.EncCertRaw = world.KeySetter, []byte{}
+		s.Cfg.ValidateEncCert = strings.HasPrefix(cfgName, "validate")
 	case "limit=maxint64":
 		s.Cfg.MaxBody = 1<<63 - 1
 	case "limit=negative":
@@ -609,6 +652,27 @@ func c09Cipher(r *core.Run, s *Std, spKey int, spCert *world.Cert, kindRaw, algR
 		wrap(keyAlg, symKey)
 		ct = make([]byte, 44)
 		detail = fmt.Sprintf("variant=%d", p1%12)
+	case "algorithm-dictionary":
+		// a well-formed envelope (genuinely wrapped key, plausible ciphertext) naming algorithms
+		// from the whole standards vocabulary in each of the four places
+		opts.KeyAlg = c09KeyTransportURIs[p1%len(c09KeyTransportURIs)]
+		opts.Digest = c09DigestURIs[(p1/len(c09KeyTransportURIs))%len(c09DigestURIs)]
+		opts.DataAlg = c09BlockURIs[algRaw%len(c09BlockURIs)]
+		symKey = symKey[:0]
+		for i := 0; i < world.KeySizeOf(opts.DataAlg); i++ {
+			symKey = append(symKey, byte(i*7+1))
+		}
+		wrap(types.MethodRSAOAEP, symKey)
+		ct = make([]byte, 16*(2+p2%3))
+		for i := range ct {
+			ct[i] = byte(i*29 + p2)
+		}
+		detail = fmt.Sprintf("transport=%q digest=%q mgf=%q", opts.KeyAlg, opts.Digest, c09MGFURIs[p2%len(c09MGFURIs)])
+	case "x509data-variants":
+		wrap(keyAlg, symKey)
+		ct = make([]byte, 44)
+		opts.EmbedCert = spCert.DER
+		detail = fmt.Sprintf("x509data-variant=%d", p1%10)
 	}
 	if ekErr != nil {
 		// e.g. message too long for the RSA key: nothing to deliver
@@ -618,6 +682,19 @@ func c09Cipher(r *core.Run, s *Std, spKey int, spCert *world.Cert, kindRaw, algR
 	}
 	x := world.EncryptedAssertionXML(opts, ct, ek)
 	switch kind {
+	case "algorithm-dictionary":
+		if opts.Digest == "" && p2%2 == 0 {
+			// an explicit DigestMethod without (or with an empty) Algorithm
+			x = strings.Replace(x, `<xenc:EncryptionMethod Algorithm="`+opts.KeyAlg+`">`, `<xenc:EncryptionMethod Algorithm="`+opts.KeyAlg+`"><ds:DigestMethod xmlns:ds="`+world.NSDsig+`"`+[]string{``, ` Algorithm=""`}[p2/2%2]+`/>`, 1)
+		}
+		if mgf := c09MGFURIs[p2%len(c09MGFURIs)]; mgf != "" {
+			x = strings.Replace(x, `<xenc:EncryptionMethod Algorithm="`+opts.KeyAlg+`">`, `<xenc:EncryptionMethod Algorithm="`+opts.KeyAlg+`"><xenc11:MGF xmlns:xenc11="http://www.w3.org/2009/xmlenc11#" Algorithm="`+mgf+`"/>`, 1)
+		}
+	case "x509data-variants":
+		good := base64.StdEncoding.EncodeToString(spCert.DER)
+		half := len(good) / 2
+		v := []string{"!!!not base64!!!", "", " ", good[:half], good[:half] + "\n" + good[half:], " " + good + " ", base64.StdEncoding.EncodeToString(s.IdPCert.DER), "AAAA", good + good, "===="}[p1%10]
+		x = strings.Replace(x, good, v, 1)
 	case "bad-base64":
 		x = strings.Replace(x, "<xenc:CipherValue>", "<xenc:CipherValue>"+[]string{"!", "=", "A", "====", " \n", "AA=A"}[p1%6], 1+p1%2)
 	case "missing-parts":
